@@ -27,6 +27,7 @@ import (
 	"runtime/debug"
 	"runtime/pprof"
 	"sort"
+	"strings"
 	"time"
 
 	"github.com/aergoio/aergo/v2/verif_h/xplor"
@@ -68,6 +69,15 @@ func one(sig, format string, a ...interface{}) []viol {
 type held struct {
 	v viol
 	c rcase
+}
+
+// canonical marks the smallest, most telling example of each suspected defect:
+// F12 v0 receipt with one own event and a 1-byte CumulativeFeeUsed (silently
+// loses the event), F13 tx lists [e0,e1,e2] / [e0,e1,e2,e2], F14 signed tx with
+// the last byte of Amount moved to the front of Payload.
+func canonical(c rcase) bool {
+	want := map[string][]int{"F12": {0, 1, 1}, "F13": {0, 0, 0, 3, 1}, "F14": {0, 2, 0}}[c.F]
+	return want != nil && fmt.Sprint(want) == fmt.Sprint(c.P)
 }
 
 func run(ctx *xplor.Ctx) {
@@ -122,12 +132,20 @@ func run(ctx *xplor.Ctx) {
 		}
 	}
 	flush := func() {
-		sort.SliceStable(later, func(i, j int) bool { return len(later[i].v.msg) < len(later[j].v.msg) })
+		sort.SliceStable(later, func(i, j int) bool {
+			if ci, cj := canonical(later[i].c), canonical(later[j].c); ci != cj {
+				return ci
+			}
+			return len(later[i].v.msg) < len(later[j].v.msg)
+		})
 		n := map[string]int{}
 		for _, h := range later {
 			if n[h.v.sig] < 3 {
 				n[h.v.sig]++
 				h.c.L = h.v.sig + ": separately labelled sub-check for a suspected defect, reported after every unlabelled violation"
+				if !canonical(h.c) { // the canonical example of each signature is reported first
+					h.c.L += strings.Repeat(".", 40)
+				}
 				ctx.Violation(h.v.sig, h.v.msg, h.c)
 			}
 		}
